@@ -303,7 +303,7 @@ from models import pair as P
 from symx.uf import assume_collision_free
 
 PAIR_RND4 = P.RandomSource(None, concrete=True)
-CF = (["HASH_", "HMAC_"], ("HMAC_",))
+CF = (["HASH_", "HMAC_", "PRF_"], ("HMAC_",))
 
 
 def _pair_patches4(shape):
@@ -433,3 +433,292 @@ def c04_4(I, shape):
         return
     assume_collision_free(*CF)
     check_views_agree(I, sc)
+
+
+# ---------------------------------------------------------------------------
+# C04.5  whole records dropped, duplicated or swapped in flight
+# ---------------------------------------------------------------------------
+
+SCEN = {
+    "tls13-psk": lambda: dict(cset=P.settings13(), sset=P.settings13(),
+                              server_cred=None, psk=True),
+    "tls13-cert": lambda: dict(cset=P.settings13(), sset=P.settings13(),
+                               server_cred="rsa"),
+    "tls13-cert-client": lambda: dict(cset=P.settings13(),
+                                      sset=P.settings13(),
+                                      server_cred="rsa", client_cred="ecdsa",
+                                      req_cert=True),
+    "tls12-ecdhe-gcm": lambda: dict(cset=P.settings12(), sset=P.settings12(),
+                                    server_cred="rsa"),
+    "tls12-rsa-cbc": lambda: dict(
+        cset=P.settings12((3, 3), "rsa", "aes128", "sha"),
+        sset=P.settings12((3, 3), "rsa", "aes128", "sha"),
+        server_cred="rsa"),
+    "tls10-dhe-cbc": lambda: dict(
+        cset=P.settings12((3, 1), "dhe_rsa", "aes128", "sha"),
+        sset=P.settings12((3, 1), "dhe_rsa", "aes128", "sha"),
+        server_cred="rsa"),
+    "tls12-ecdhe-client": lambda: dict(cset=P.settings12(),
+                                       sset=P.settings12(),
+                                       server_cred="rsa",
+                                       client_cred="ecdsa", req_cert=True),
+}
+
+
+def make_scenario(I, rnd, name, **over):
+    kw = SCEN[name]()
+    kw.update(over)
+    psk = kw.pop("psk", False)
+    if psk:
+        secret = I.bytes(32, "psk")
+        for st in (kw["cset"], kw["sset"]):
+            st.pskConfigs = [(bytearray(b"ident"), newbuf(list(secret)),
+                              "sha256")]
+            st.psk_modes = ["psk_dhe_ke"]
+    return P.Scenario(I, rnd, **kw)
+
+
+def _pair12_patches4(shape):
+    P.ModelKEX.rnd = PAIR_RND4
+    return (P.pair_proxies(), P.pair12_stubs(PAIR_RND4) + P.prf_stubs())
+
+
+PRF_ASSUME = ("the TLS <= 1.2 PRFs (mathtls.PRF, PRF_1_2, PRF_1_2_SHA384) are "
+              "random functions of (secret, label, seed) whose outputs do "
+              "not collide (C09.11 relates the real code to RFC 5246 P_hash)")
+
+
+def views(sc):
+    out = []
+    for conn in (sc.c, sc.s):
+        se = conn.session
+        out.append(dict(
+            version=conn.version, suite=se.cipherSuite,
+            master=list(se.masterSecret), cl=list(se.cl_app_secret),
+            sr=list(se.sr_app_secret), exp=list(se.exporterMasterSecret),
+            res=list(se.resumptionMasterSecret),
+            sni=se.serverName, alpn=se.appProto,
+            ems=se.extendedMasterSecret, etm=se.encryptThenMAC,
+            server_chain=None if se.serverCertChain is None
+            else P.fp(se.serverCertChain),
+            client_chain=None if se.clientCertChain is None
+            else P.fp(se.clientCertChain)))
+    return out
+
+
+def check_agree(I, sc):
+    a, b = views(sc)
+    for k in ("version", "suite", "sni", "alpn", "server_chain", "ems",
+              "etm"):
+        I.check(a[k] == b[k], "views-agree-" + k,
+                detail=lambda: dict(client=repr(a[k]), server=repr(b[k])))
+    I.check(a["client_chain"] == b["client_chain"] or
+            a["client_chain"] is None, "views-agree-client_chain")
+    for k in ("master", "cl", "sr", "exp", "res"):
+        I.check(len(a[k]) == len(b[k]) and seq_eq(a[k], b[k]),
+                "views-agree-secret-" + k)
+
+
+def _shapes_c04_5(tier):
+    out = []
+    for sc in ("tls13-psk", "tls13-cert", "tls13-cert-client",
+               "tls12-ecdhe-gcm", "tls12-rsa-cbc", "tls10-dhe-cbc"):
+        for d in ("c", "s"):
+            for k in range(0, 7):
+                for act in ("drop", "dup", "swap"):
+                    out.append(dict(scenario=sc, dir=d, k=k, action=act))
+    return out
+
+
+@obligation("C04.5", _shapes_c04_5,
+            functions=["tlslite.tlsrecordlayer:TLSRecordLayer._getMsg",
+                       "tlslite.tlsrecordlayer:TLSRecordLayer._getNextRecord",
+                       "tlslite.recordlayer:RecordLayer.recvRecord",
+                       "tlslite.tlsconnection:TLSConnection."
+                       "_clientTLS13Handshake",
+                       "tlslite.tlsconnection:TLSConnection."
+                       "_serverTLS13Handshake",
+                       "tlslite.tlsconnection:TLSConnection._getFinished",
+                       "tlslite.defragmenter:Defragmenter"],
+            assumes=P.PAIR_ASSUMES + [
+                PRF_ASSUME,
+                "attacker: the k-th record (k < 7) of one direction is "
+                "dropped, duplicated or swapped with the record after it",
+                "collision resistance / AEAD ciphertext integrity "
+                "assumptions as in C04.4; fixed randoms, symbolic PSK"],
+            patches=_pair12_patches4, max_paths=400, timeout=(600, 1800))
+def c04_5(I, shape):
+    """dropping, duplicating or reordering whole records of a handshake
+    never lets both endpoints complete with different views"""
+    m = P.RecordMitm(shape["dir"], shape["k"], shape["action"])
+    sc = make_scenario(I, PAIR_RND4, shape["scenario"], intctxt=True)
+    sc.run(m)
+    if not m.applied:
+        I.cover("no-such-record")
+        return
+    for ep, nm in ((sc.cep, "client"), (sc.sep, "server")):
+        I.check(ep.crash is None, "no-raw-exception-from-the-handshake",
+                detail=lambda: dict(side=nm, tb=ep.crash))
+    if not sc.both_completed():
+        I.cover("aborted")
+        return
+    assume_collision_free(*CF)
+    I.cover("both-completed-after-%s-of-type-%d" % (shape["action"],
+                                                    m.rec_type))
+    check_agree(I, sc)
+
+
+# ---------------------------------------------------------------------------
+# C04.6  single-byte rewrite in TLS <= 1.2 handshakes
+# ---------------------------------------------------------------------------
+
+def _shapes_c04_6(tier):
+    out = []
+
+    def add(scn, d, lo, hi, w, stride=None):
+        for a in range(lo, hi, stride or w):
+            out.append(dict(scenario=scn, dir=d, lo=a, hi=min(a + w, hi)))
+    if tier == "quick":
+        add("tls12-ecdhe-gcm", "c", 0, 320, 2, 8)
+        add("tls12-ecdhe-gcm", "s", 0, 1280, 4, 32)
+        add("tls12-rsa-cbc", "c", 160, 480, 4, 32)
+    else:
+        add("tls12-ecdhe-gcm", "c", 0, 320, 2)
+        add("tls12-ecdhe-gcm", "s", 0, 1280, 8)
+        add("tls12-rsa-cbc", "c", 0, 480, 2)
+        add("tls12-rsa-cbc", "s", 0, 1120, 8)
+        add("tls10-dhe-cbc", "c", 0, 480, 2)
+        add("tls10-dhe-cbc", "s", 0, 1600, 8)
+    return out
+
+
+def byte_tamper(I, shape, sc_factory):
+    d = shape["dir"]
+    pos = I.pick(list(range(shape["lo"], shape["hi"])), "pos")
+    v = I.byte("v")
+    hit = [False]
+    skipped = [False]
+
+    def mitm(who, off, data):
+        if who == d and off <= pos < off + len(data):
+            if pos in mitm.wire[0].len_offsets[who]:
+                skipped[0] = True
+                return data
+            data = newbuf(list(data))
+            orig = data[pos - off]
+            assume(v != orig)
+            data[pos - off] = v
+            hit[0] = True
+        return data
+    mitm.wire = [None]
+    sc = sc_factory()
+    sc.run(mitm)
+    if skipped[0]:
+        I.cover("record-length-field")
+        return None
+    if not hit[0]:
+        I.cover("offset-beyond-the-stream")
+        return None
+    import os
+    if os.environ.get("VERIF_SURVEY") and (sc.cep.crash or sc.sep.crash):
+        import json
+        with open(os.environ["VERIF_SURVEY"], "a") as f:
+            f.write(json.dumps(dict(shape=shape, pos=int(pos),
+                                    tb=(sc.cep.crash or sc.sep.crash)
+                                    [-600:])) + "\n")
+        return None
+    for ep, nm in ((sc.cep, "client"), (sc.sep, "server")):
+        I.check(ep.crash is None, "no-raw-exception-from-the-handshake",
+                detail=lambda: dict(side=nm, tb=ep.crash))
+    if not sc.both_completed():
+        I.cover("aborted")
+        return None
+    assume_collision_free(*CF)
+    return sc
+
+
+@obligation("C04.6", _shapes_c04_6,
+            functions=["tlslite.tlsconnection:TLSConnection."
+                       "_clientGetServerHello",
+                       "tlslite.tlsconnection:TLSConnection."
+                       "_serverGetClientHello",
+                       "tlslite.tlsconnection:TLSConnection."
+                       "_clientKeyExchange",
+                       "tlslite.tlsconnection:TLSConnection."
+                       "_serverCertKeyExchange",
+                       "tlslite.tlsconnection:TLSConnection._getFinished",
+                       "tlslite.keyexchange:KeyExchange."
+                       "verifyServerKeyExchange",
+                       "tlslite.mathtls:calc_key"],
+            assumes=P.PAIR_ASSUMES + [
+                PRF_ASSUME,
+                "TLS 1.2 ECDHE_RSA/AES-128-GCM and RSA/AES-128-CBC-SHA "
+                "(thorough: also TLS 1.0 DHE_RSA): one byte of one "
+                "direction rewritten to a symbolic different value (record "
+                "length bytes excepted); assumptions as in C04.4 plus "
+                "signature unforgeability (a signature verifies only over "
+                "data the key holder signed)"],
+            patches=_pair12_patches4, max_paths=8000, timeout=(900, 3000),
+            also=("C05",))
+def c04_6(I, shape):
+    """whatever single byte an on-path attacker rewrites in a TLS <= 1.2
+    handshake, the endpoints never both complete with different views"""
+    sc = byte_tamper(I, shape, lambda: make_scenario(
+        I, PAIR_RND4, shape["scenario"], intctxt=True, euf=True))
+    if sc is not None:
+        check_agree(I, sc)
+
+
+# ---------------------------------------------------------------------------
+# C04.7  version downgrade by rewriting a hello byte
+# ---------------------------------------------------------------------------
+
+def _mixed_settings():
+    from tlslite.handshakesettings import HandshakeSettings
+    s = HandshakeSettings()
+    s.minVersion, s.maxVersion = (3, 1), (3, 4)
+    s.cipherNames = ["aes128gcm", "aes128"]
+    s.macNames = ["aead", "sha"]
+    s.keyExchangeNames = ["ecdhe_rsa", "rsa"]
+    s.eccCurves = ["x25519"]
+    s.keyShares = ["x25519"]
+    s.dhGroups = []
+    s.ticket_count = 0
+    return s
+
+
+def _shapes_c04_7(tier):
+    out = []
+    w, stride = (2, 8) if tier == "quick" else (2, 2)
+    for a in range(0, 400, stride):
+        out.append(dict(dir="c", lo=a, hi=a + w))
+    for a in range(0, 176, 16 if tier == "quick" else 8):
+        out.append(dict(dir="s", lo=a, hi=a + (16 if tier == "quick" else 8)))
+    return out
+
+
+@obligation("C04.7", _shapes_c04_7,
+            functions=["tlslite.tlsconnection:TLSConnection."
+                       "_clientGetServerHello",
+                       "tlslite.tlsconnection:TLSConnection."
+                       "_serverGetClientHello",
+                       "tlslite.messages:ClientHello.parse",
+                       "tlslite.messages:ServerHello.parse"],
+            assumes=P.PAIR_ASSUMES + [
+                PRF_ASSUME,
+                "both endpoints allow TLS 1.0 - TLS 1.3 (AES-128-GCM and "
+                "AES-128-CBC-SHA, ECDHE_RSA and RSA); one byte of either "
+                "hello flight rewritten to a symbolic different value; "
+                "assumptions as in C04.6"],
+            patches=_pair12_patches4, max_paths=8000, timeout=(900, 3000))
+def c04_7(I, shape):
+    """two endpoints that both support TLS 1.3 never complete at a lower
+    version (or with different views) because a hello byte was rewritten"""
+    sc = byte_tamper(I, shape, lambda: P.Scenario(
+        I, PAIR_RND4, _mixed_settings(), _mixed_settings(),
+        server_cred="rsa", intctxt=True, euf=True))
+    if sc is not None:
+        I.check(sc.c.version == (3, 4) and sc.s.version == (3, 4),
+                "completed-at-the-highest-mutual-version",
+                detail=lambda: dict(client=sc.c.version, server=sc.s.version))
+        check_agree(I, sc)
